@@ -11,13 +11,15 @@ import base64
 TOKENS = [
     ",", ";", "=", " ", "  ", '"', '\\"', "\\", "'", "*", "/", ":", "-", "_", ".", "@", "?", "&", "+", "#", "!", "~", "|",
     "(", ")", "<", ">", "[", "]", "{", "}", "%", "%41", "%2", "%zz", "%22", "%C3%A9", "%FF", "%00", "%0a",
-    "*0=", "*1=", "*=UTF-8''", "*=utf-8'en'", "*=BAD''", "*0*=", "UTF-8''%e2%82%ac", "''",
+    "*0=", "*1=", "*=UTF-8''", "x*=UTF-8''%00", "*=UTF-8''%00", "*=iso-8859-1''%00%ff", "*=utf-8'en'", "*=BAD''", "*0*=", "UTF-8''%e2%82%ac", "''",
     "a", "b", "x", "q", "q=", "q=0", "q=0.5", "q=1", "q=abc", "q=1.5", "q=-1", "text", "html", "text/html", "*/*", "text/*", "en", "en-US",
     "utf-8", "gzip", "bytes", "bytes=", "0-5", "-5", "5-", "0-0", "5-2", "-0", "*/10", "0-5/10", "bytes 0-5/*",
     "W/", 'W/"x"', '"x"', '"', "max-age", "max-age=5", "no-cache", "private=", "no-store", "only-if-cached",
     "Basic", "Basic ", "Digest", "Digest ", "Bearer ", "Negotiate", "username=", "realm=", "nonce=", "qop=", "nc=", "uri=", "response=",
     base64.b64encode(b"user:pass").decode(), base64.b64encode(b"\xff\xfe:\xfd").decode(), base64.b64encode("ü:ß".encode()).decode(),
     "dXNlcg", "====", "dXNlcjpwYXNz=", "é", "\xff", "\xfe\xfd", "\x80", "\xa0", "\xc3\xa9", "\xc3", "\xe2\x82", "ÿþ",
+    "Fri, 31 Dec 9999 23:59:59 -0001", "31 Dec 9999 23:59 -0800", "Mon, 01 Jan 0001 00:00:00 +0100", "Sat, 01 Jan 0000 00:00:00 GMT", "Sun, 06 Nov 1994 08:49:37 +2359",
+    ":8\xb2", "\xb2", "\xb3\xb3", ":\xb9", "\xbc", ":080", ":" + "9" * 30,
     "Sun, 06 Nov 1994 08:49:37 GMT", "Sunday, 06-Nov-94 08:49:37 GMT", "Sun Nov  6 08:49:37 1994", "Thu, 33 Jan 1970 00:00:00 GMT",
     "Mon, 01 Jan 0001 00:00:00 GMT", "Fri, 31 Dec 9999 23:59:59 GMT", "01 Jan 99999 00:00:00 +9999", "06 Nov 1994", "+0000", "-2500",
     "0", "1", "5", "-1", "00", "007", "1e5", "99999999999999999999999999", "1_0", "+5", "0x10", "٥", "１", "1.5", "NaN", "inf",
